@@ -143,10 +143,14 @@ def _eq_codes(a, b):
     return core.conj(*[core.eq(x, y) for x, y in zip(a, b)])
 
 
-def h_encode_str(ctx, n, his=None):
+def h_encode_str(ctx, n, his=None, lead=""):
+    """lead: concrete characters in front of the n unconstrained ones (values that look like something else: an escape, a query string)"""
     from ref import wa_registration_ref as R
     W = _W()
     v, cs = _unicode_chars(ctx, "u", n, his)
+    if lead:
+        v = (SymStr(list(lead)) + v) if H.sym(ctx) else lead + v
+        cs = [ord(c) for c in lead] + list(cs)
     out = W.urlencode(v)
     ref = []
     for c in cs:
@@ -241,21 +245,25 @@ def h_encrypt(ctx):
         p1 = req.encryptParams(params, server.publicKey)
         p2 = req.encryptParams(params, server.publicKey)
         obs = [("one ENC parameter", len(p1) == 1 and p1[0][0] == "ENC")]
-        blob = M.M_base64.b64decode(p1[0][1])
-        eph_pub, ct = blob[:32], blob[32:]
-        pubterm = eph_pub.norm()[0].base if len(eph_pub.norm()) == 1 and isinstance(eph_pub.norm()[0], Piece) else None
-        obs.append(("payload starts with the 32-byte ephemeral public key", pubterm is not None and pubterm.fn == "pubkey"))
-        if pubterm is not None:
+        firsts = []
+        # every request of the process (here: two on one request object, as a preview followed by the real send) must decrypt at the server
+        for nth, p in (("first", p1), ("second", p2)):
+            blob = M.M_base64.b64decode(p[0][1])
+            eph_pub, ct = blob[:32], blob[32:]
+            firsts.append(eph_pub)
+            pubterm = eph_pub.norm()[0].base if len(eph_pub.norm()) == 1 and isinstance(eph_pub.norm()[0], Piece) else None
+            obs.append(("%s request: payload starts with the 32-byte ephemeral public key" % nth, pubterm is not None and pubterm.fn == "pubkey"))
+            if pubterm is None:
+                continue
             eph_ident = pubterm.args[0]
             shared = M.M_Curve.calculateAgreement(M.M_ECKey("pub", eph_ident), server.privateKey)     # what the server computes
             try:
                 pt = M.M_AESGCM(shared).decrypt(b"\x00\x00\x00\x00" + b"\x00" * 8, ct, b"")
                 expect = M.rope(W.urlencodeParams(params).encode())
-                obs.append(("server decrypts to exactly the encoded parameter string", valkey(M.rope(pt)) == valkey(expect)))
+                obs.append(("%s request: server decrypts (fixed nonce) to exactly the encoded parameter string" % nth, valkey(M.rope(pt)) == valkey(expect)))
             except ValueError:
-                obs.append(("server decrypts to exactly the encoded parameter string", False))
-            blob2 = M.M_base64.b64decode(p2[0][1])
-            obs.append(("fresh ephemeral key per call", valkey(blob2[:32]) != valkey(eph_pub)))
+                obs.append(("%s request: server decrypts (fixed nonce) to exactly the encoded parameter string" % nth, False))
+        obs.append(("fresh ephemeral key per call", valkey(firsts[1]) != valkey(firsts[0])))
         return obs
     # concrete: real primitives
     from axolotl.ecc.curve import Curve
@@ -285,20 +293,21 @@ def h_encrypt(ctx):
     WR.Curve = _Curve()
     p1 = req.encryptParams(params, server.getPublicKey())
     p2 = req.encryptParams(params, server.getPublicKey())
-    raw = base64.b64decode(p1[0][1])
-    eph = Curve.decodePoint(bytearray(b"\x05" + raw[:32]), 0)
-    shared = Curve.calculateAgreement(eph, server.getPrivateKey())
+    obs = [("one ENC parameter", len(p1) == 1 and p1[0][0] == "ENC")]
     try:
-        pt = AESGCM(shared).decrypt(b"\x00\x00\x00\x00" + struct.pack(">Q", 0), raw[32:], b"")
-    except Exception:
-        pt = None
+        for nth, p in (("first", p1), ("second", p2)):
+            raw = base64.b64decode(p[0][1])
+            eph = Curve.decodePoint(bytearray(b"\x05" + raw[:32]), 0)
+            shared = Curve.calculateAgreement(eph, server.getPrivateKey())
+            try:
+                pt = AESGCM(shared).decrypt(b"\x00\x00\x00\x00" + struct.pack(">Q", 0), raw[32:], b"")
+            except Exception:
+                pt = None
+            obs.append(("%s request: server decrypts (fixed nonce) to exactly the encoded parameter string" % nth, pt is not None and pt.decode() == W.urlencodeParams(params)))
     finally:
         WR.Curve = Curve
-    if pt is None:
-        return [("payload starts with the 32-byte ephemeral public key", False)]
-    return [("one ENC parameter", len(p1) == 1 and p1[0][0] == "ENC"),
-            ("server decrypts to exactly the encoded parameter string", pt.decode() == W.urlencodeParams(params)),
-            ("fresh ephemeral key per call", base64.b64decode(p2[0][1])[:32] != raw[:32])]
+    obs.append(("fresh ephemeral key per call", base64.b64decode(p2[0][1])[:32] != base64.b64decode(p1[0][1])[:32]))
+    return obs
 
 
 def cases(tier):
@@ -307,6 +316,9 @@ def cases(tier):
     for n1, n2 in (((1, 2), (2, 1), (2, 2)) if q else ((1, 2), (2, 1), (2, 2), (3, 2), (2, 3), (3, 3), (4, 3))):
         cs.append(dict(name="token-twice[%d,%d digits]" % (n1, n2), fn=h_token_twice, args=(n1, n2)))
     cs.append(dict(name="encode-str[n=1,unicode]", fn=h_encode_str, args=(1,), weight=20, timeout_s=300, max_paths=400000))
+    # values that already look percent-encoded / like a query string: '%', '&', '=' or '+' followed by two unconstrained ASCII characters
+    for lead in ("%", "a%", "&", "+"):
+        cs.append(dict(name="encode-str[%r + 2 ascii]" % lead, fn=h_encode_str, args=(2, [0x7F, 0x7F], lead), weight=100, timeout_s=300 if q else 3000, max_paths=400000))
     cs.append(dict(name="encode-str[n=2,ascii+ascii]", fn=h_encode_str, args=(2, [0x7F, 0x7F]), weight=100, timeout_s=300 if q else 3000, max_paths=400000))
     cs.append(dict(name="encode-str[n=2,unicode+ascii]", fn=h_encode_str, args=(2, [0x10FFFF, 0x7F]), weight=300, timeout_s=400 if q else 3000, max_paths=400000))
     if not q:
